@@ -515,7 +515,8 @@ pub fn check(engine: &dyn Engine, o: &Opts) -> CheckResult {
             continue;
         }
         let min = minimise(engine, f);
-        match write_replay("/verif/replays", engine, o.seed, f, &min) {
+        let replay_dir = std::env::var("VERIF_REPLAY_DIR").unwrap_or_else(|_| "/verif/replays".to_string());
+        match write_replay(&replay_dir, engine, o.seed, f, &min) {
             Ok(path) => {
                 // replay in a fresh process before reporting
                 let ok = std::process::Command::new(std::env::current_exe().unwrap())
